@@ -2,6 +2,7 @@
 from __future__ import annotations
 
 import ast
+import re
 
 from ..cfg import typestate
 from ..core import INCONCLUSIVE, OK, VIOLATION, Ctx, canon, is_self_attr, local_defs
@@ -420,8 +421,8 @@ def r01_2(ctx: Ctx):
                 if fn.endswith("create_population"):
                     n_sites += 1
                     ini = next((k.value for k in c.keywords if k.arg == "initialize"), c.args[2] if len(c.args) > 2 else None)
-                    ok, why = _initializer_ok(ini, sn, defs)
-                    obs.append(ctx.ob("R01.2", f, c, status=OK if ok else VIOLATION, detail=f"{ci.name}: initial genomes from {why}" if ok else f"{ci.name}: {why}"))
+                    st, why = _initializer_ok(ini, sn, defs)
+                    obs.append(ctx.ob("R01.2", f, c, status=st, detail=f"{ci.name}: initial genomes from {why}" if st == OK else f"{ci.name}: {why}"))
                 elif ctx.prog.resolve_class_expr(c.func, f.module) is ctx.prog.cls("Individual") and c.args:
                     n_sites += 1
                     g = c.args[0]
@@ -444,11 +445,17 @@ def r01_2(ctx: Ctx):
         for f in ctx.prog.functions_in(ci):
             for cs in ctx.res.callsites(f):
                 if cs.external == "scipy.optimize.minimize" and isinstance(cs.node, ast.Call):
-                    b = next((k.value for k in cs.node.keywords if k.arg == "bounds"), None)
+                    from ..core import effective_keywords
+
+                    ekw = effective_keywords(cs.node, local_defs(f))
+                    b = ekw.get("bounds")
+                    if b is None and any(k.arg is None for k in cs.node.keywords) and "bounds" not in ekw:
+                        obs.append(ctx.ob("R01.2", f, cs.node, status=INCONCLUSIVE, detail=f"{ci.name}: scipy is called with **kwargs the analyser cannot expand", construct=f"{ci.name}:scipy-bounds"))
+                        continue
                     fsn = (f.self_name() if f.parent is None else f.parent.self_name()) or "self"
                     ok = b is not None and is_self_attr(b, "_bounds", fsn)
                     obs.append(ctx.ob("R01.2", f, cs.node, status=OK if ok else VIOLATION, detail=f"{ci.name}: scipy is given bounds=self._bounds" if ok else f"{ci.name}: scipy.optimize.minimize is called with bounds={norm(b) if b is not None else '<missing>'}: the local search leaves the box", construct=f"{ci.name}:scipy-bounds"))
-                    x0 = cs.node.args[1] if len(cs.node.args) > 1 else next((k.value for k in cs.node.keywords if k.arg == "x0"), None)
+                    x0 = cs.node.args[1] if len(cs.node.args) > 1 else ekw.get("x0")
                     d = local_defs(f)
                     xr = x0
                     while isinstance(xr, ast.Name) and xr.id in d and len(d[xr.id]) == 1:
@@ -460,24 +467,63 @@ def r01_2(ctx: Ctx):
     return obs
 
 
-def _initializer_ok(ini, sn, defs):
-    if not isinstance(ini, ast.Call):
-        return False, f"population initialiser `{norm(ini) if ini is not None else '?'}` is not sample_uniform / sample_normal"
-    fn = norm(ini.func)
-    b = next((k.value for k in ini.keywords if k.arg == "bounds"), None)
+_BOX_RE = re.compile(r"^[A-Za-z_][A-Za-z_0-9.]*\.(_bounds|bounds)$")
+
+
+def _box_status(b, sn, defs) -> str:
+    """'box' = the level's / problem's own bounds array untouched, 'modified' = an expression computed from bounds
+    (arithmetic, slicing, a call), 'none' = missing / None, 'unknown' otherwise."""
+    if b is None or (isinstance(b, ast.Constant) and b.value is None):
+        return "none"
+    t = canon(b, defs)
+    if _BOX_RE.match(t):
+        return "box"
+    if "bounds" in t and any(isinstance(x, (ast.BinOp, ast.Call, ast.Subscript, ast.UnaryOp)) for x in ast.walk(b if not isinstance(b, ast.Name) else ast.parse(t, mode="eval").body)):
+        return "modified"
+    return "unknown"
+
+
+def _initializer_ok(ini, sn, defs, depth=0):
+    """-> (status, text).  The initialiser may be bound to a local first or chosen by a conditional expression
+    (every arm must qualify)."""
+    r = ini
+    hops = 0
+    while isinstance(r, ast.Name) and r.id in defs and len(defs[r.id]) == 1 and hops < 4 and not isinstance(defs[r.id][0], ast.AugAssign):
+        r = defs[r.id][0]
+        hops += 1
+    if isinstance(r, ast.IfExp) and depth < 3:
+        a = _initializer_ok(r.body, sn, defs, depth + 1)
+        b = _initializer_ok(r.orelse, sn, defs, depth + 1)
+        for st in (VIOLATION, INCONCLUSIVE):
+            for x in (a, b):
+                if x[0] == st:
+                    return x
+        return OK, f"{a[1]} / {b[1]}"
+    if not isinstance(r, ast.Call):
+        return INCONCLUSIVE, f"cannot tell what the population initialiser `{norm(ini) if ini is not None else '?'}` is"
+    fn = norm(r.func)
+    b = next((k.value for k in r.keywords if k.arg == "bounds"), None)
     if fn == "sample_uniform":
-        b = b if b is not None else (ini.args[0] if ini.args else None)
-        if b is not None and is_self_attr(b, "_bounds", sn):
-            return True, "sample_uniform(bounds=self._bounds)"
-        return False, f"sample_uniform is given `{norm(b) if b is not None else 'no bounds'}` instead of the deme's bounds"
+        b = b if b is not None else (r.args[0] if r.args else None)
+        bs = _box_status(b, sn, defs)
+        if bs == "box":
+            return OK, f"sample_uniform(bounds={norm(b)})"
+        if bs in ("none", "modified"):
+            return VIOLATION, f"sample_uniform is given `{norm(b) if b is not None else 'no bounds'}` instead of the deme's bounds"
+        return INCONCLUSIVE, f"cannot tell whether `{norm(b)}` given to sample_uniform is the deme's box"
     if fn == "sample_normal":
-        b = b if b is not None else (ini.args[2] if len(ini.args) > 2 else None)
-        if b is None or (isinstance(b, ast.Constant) and b.value is None):
-            return False, "sample_normal is called without bounds: the normal sample around the seed is not restricted to the box"
-        if is_self_attr(b, "_bounds", sn):
-            return True, "sample_normal(seed, std, bounds=self._bounds) (rejection sampling)"
-        return False, f"sample_normal is given `{norm(b)}` instead of the deme's bounds"
-    return False, f"population initialiser `{fn}` is not sample_uniform / sample_normal"
+        b = b if b is not None else (r.args[2] if len(r.args) > 2 else None)
+        bs = _box_status(b, sn, defs)
+        if bs == "none":
+            return VIOLATION, "sample_normal is called without bounds: the normal sample around the seed is not restricted to the box"
+        if bs == "box":
+            return OK, f"sample_normal(seed, std, bounds={norm(b)}) (rejection sampling)"
+        if bs == "modified":
+            return VIOLATION, f"sample_normal is given `{norm(b)}` instead of the deme's bounds"
+        return INCONCLUSIVE, f"cannot tell whether `{norm(b)}` given to sample_normal is the deme's box"
+    if fn in ("np.random.normal", "np.random.uniform", "np.random.standard_normal", "np.random.randn") or isinstance(r.func, ast.Lambda):
+        return VIOLATION, f"population initialiser `{fn}` is not restricted to the box"
+    return INCONCLUSIVE, f"population initialiser `{fn}` is not sample_uniform / sample_normal: cannot tell whether it respects the box"
 
 
 def _genome_source_ok(ctx, ci, f, g, sn, defs):
@@ -651,8 +697,11 @@ def r01_4(ctx: Ctx):
     obs = []
     init = ctx.prog.own_method("AbstractDeme", "__init__")
     st = [n for n in body_walk(init.node) if isinstance(n, (ast.Assign, ast.AnnAssign)) and any(is_self_attr(t, "_bounds", init.self_name()) for t in (n.targets if isinstance(n, ast.Assign) else [n.target]))]
-    ok = len(st) == 1 and norm(st[0].value).endswith(".config.bounds")
-    obs.append(ctx.ob("R01.4", init, st[0] if st else init.node, status=OK if ok else VIOLATION, detail="deme bounds = level config bounds" if ok else f"deme bounds are `{norm(st[0].value) if st else '?'}`", construct="deme-bounds"))
+    idefs = local_defs(init)
+    vt = canon(st[0].value, idefs) if len(st) == 1 else "?"
+    bs = _box_status(st[0].value, init.self_name(), idefs) if len(st) == 1 else "unknown"
+    status = OK if (len(st) == 1 and (vt.endswith(".config.bounds") or vt.endswith(".config.problem.bounds"))) else VIOLATION if (not st or bs in ("modified", "none")) else INCONCLUSIVE
+    obs.append(ctx.ob("R01.4", init, st[0] if st else init.node, status=status, detail="deme bounds = level config bounds" if status == OK else f"deme bounds are `{norm(st[0].value) if st else '?'}`", construct="deme-bounds"))
     others = []
     base = ctx.prog.cls("AbstractDeme")
     for ci in [base] + ctx.prog.subclasses(base):
